@@ -207,6 +207,8 @@ func (c caseT) progLine() string {
 // decl renders the declaration(s) and the names to print.
 func (c caseT) decl() (string, []string) {
 	switch c.Ctx {
+	case "rawdecl":
+		return c.Src, []string{"c0"}
 	case "var":
 		return "var c0 = " + c.Expr.src(), []string{"c0"}
 	case "const":
@@ -241,7 +243,19 @@ func (c caseT) progSource() string {
 	if c.Kind == "cplx" {
 		return c.cplxSource()
 	}
+	if c.Kind == "raw" {
+		return c.rawSource()
+	}
 	switch c.Form {
+	case "iface":
+		return "package main\n\nimport \"fmt\"\n\nvar c0 interface{} = " + c.Expr.src() + "\n\nfunc main() {\n" +
+			"\tfmt.Printf(\"%#v|%T\\n\", c0, c0)\n}\n"
+	case "ifacelocal":
+		return "package main\n\nimport \"fmt\"\n\nfunc main() {\n\tvar c0 interface{} = " + c.Expr.src() +
+			"\n\tfmt.Printf(\"%#v|%T\\n\", c0, c0)\n}\n"
+	case "short":
+		return "package main\n\nimport \"fmt\"\n\nfunc main() {\n\tc0 := " + c.Expr.src() +
+			"\n\tfmt.Printf(\"%#v|%T\\n\", c0, c0)\n}\n"
 	case "assign":
 		return "package main\n\nimport \"fmt\"\n\nvar c0 " + c.Type + "\n\nfunc main() {\n\tc0 = " + c.Expr.src() +
 			"\n\tfmt.Printf(\"%#v|%T\\n\", c0, c0)\n}\n"
